@@ -412,7 +412,11 @@ impl LowLevel {
 	}
 
 	async fn ws(&self) -> Result<RawWs, String> {
-		let (client, server) = tokio::io::duplex(DUPLEX);
+		self.ws_with_capacity(DUPLEX).await
+	}
+
+	async fn ws_with_capacity(&self, capacity: usize) -> Result<RawWs, String> {
+		let (client, server) = tokio::io::duplex(capacity);
 		self.serve(server);
 		RawWs::handshake(client, "localhost", "/").await.map_err(|e| format!("{e:?}"))
 	}
@@ -659,6 +663,103 @@ async fn ws_probe_virtual(ws: &mut RawWs, log: &Log, text: &str, n: u64) -> Obs 
 		o.note = Some(format!("connection ended: {why}"));
 	}
 	o
+}
+
+// ---------------------------------------------------------------------------------------------------------------
+// Back-pressure family: the oversized frame arrives while the connection's outgoing buffer is full (tiny message buffer,
+// tiny transport buffer, peer not reading). The rejection must still be delivered (exactly one -32007) once the peer
+// reads again, nothing of the oversized message reaches a handler, every other call is answered.
+
+struct BpOut {
+	calls_answered: usize,
+	violations: Vec<Violation>,
+	nontrivial: bool,
+}
+
+async fn backpressure_case(seed: u64) -> BpOut {
+	let mut r = Rng::new(seed);
+	let mut out = BpOut { calls_answered: 0, violations: Vec::new(), nontrivial: false };
+	let req = *r.pick(&[100u32, 200, 1000]);
+	let log = Log::default();
+	let low_level = r.chance(1, 4);
+	let cfg = ServerConfig::builder().max_request_body_size(req).max_response_body_size(1 << 20).set_message_buffer_capacity(1 + r.below(2) as u32).max_connections(100).build();
+	// (the servers must outlive the connection: dropping their handles stops them)
+	// the in-memory pipe has one capacity for both directions: large enough for the oversized frame to be written without
+	// the server reading it to the end, and filled towards the peer by enough answers
+	let capacity = 2 * req as usize + 300 + r.usize(256);
+	let low = LowLevel::new(cfg.clone(), handlers::echo_module(log.clone()));
+	let mut srv = MemServer::new(cfg, handlers::echo_module(log.clone()));
+	srv.duplex_capacity = capacity;
+	let conn = if low_level { low.ws_with_capacity(capacity).await.map_err(|e| format!("{e:?}")) } else { srv.ws().await.map_err(|e| format!("{e:?}")) };
+	let Ok(mut ws) = conn else { return out };
+	let entry = if low_level { "ws-connect" } else { "tower-ws" };
+	ws.set_reading(false);
+	tokio::time::sleep(Duration::from_millis(2)).await;
+	let pad = "p".repeat((req as usize).saturating_sub(70).min(400));
+	let n_before = capacity / (pad.len() + 40) + 4 + r.usize(6);
+	for i in 0..n_before {
+		let _ = ws.send_text(&format!("{{\"jsonrpc\":\"2.0\",\"id\":{i},\"method\":\"echo_sync\",\"params\":[\"{pad}\"]}}")).await;
+	}
+	tokio::time::sleep(Duration::from_millis(5)).await;
+	let marker = format!("OVERSIZED-{seed:x}");
+	let over = req as usize + 1 + r.usize(req as usize);
+	let body_pad = "o".repeat(over.saturating_sub(70 + marker.len()));
+	let big = format!("{{\"jsonrpc\":\"2.0\",\"id\":777,\"method\":\"echo_sync\",\"params\":[\"{marker}{body_pad}\"]}}");
+	let big_len = big.len();
+	let _ = ws.send_text(&big).await;
+	tokio::time::sleep(Duration::from_millis(20)).await;
+	ws.set_reading(true);
+	// (further calls only once the peer reads again: the server does not take input while it waits to deliver the rejection)
+	let n_after = r.usize(3);
+	for i in 0..n_after {
+		let _ = ws.send_text(&format!("{{\"jsonrpc\":\"2.0\",\"id\":{},\"method\":\"echo_async\",\"params\":[\"after\"]}}", 1000 + i)).await;
+	}
+	let (sentinel, sid) = sentinel_text(seed & 0xffff);
+	let _ = ws.send_text(&sentinel).await;
+	let frames = ws.drain_until_idle(IDLE).await;
+	let invocations = log.take();
+	let mut too_big = 0;
+	let mut answered: Vec<u64> = Vec::new();
+	let mut sentinel_ok = false;
+	for f in &frames {
+		let Some(v) = f.json() else { continue };
+		if v["id"] == Value::String(sid.clone()) {
+			sentinel_ok = true;
+		} else if v["error"]["code"] == json!(-32007) {
+			too_big += 1;
+		} else if let Some(id) = v["id"].as_u64() {
+			if v.get("result").is_some() {
+				answered.push(id);
+			}
+		}
+	}
+	out.calls_answered = answered.len();
+	out.nontrivial = big_len > req as usize;
+	let w = json!({"family": "backpressure", "seed": seed, "entry": entry, "req_limit": req, "message_len": big_len, "calls_before": n_before, "calls_after": n_after,
+		"frames": frames.iter().map(|f| clip(&f.data)).collect::<Vec<_>>()});
+	if big_len <= req as usize {
+		return out;
+	}
+	if invocations.iter().any(|i| i.params.as_deref().is_some_and(|p| p.contains(&marker))) {
+		out.violations.push(Violation::new(format!("oversized-dispatched/{entry}:backpressure"), format!("req_limit={req} size={big_len}: the oversized message reached a handler"), w.clone()));
+	}
+	if too_big != 1 {
+		out.violations.push(Violation::new(
+			format!("{}/{entry}:backpressure", if too_big == 0 { "oversized-not-rejected" } else { "oversized-rejected-twice" }),
+			format!("req_limit={req} size={big_len}: {too_big} -32007 frame(s) for one oversized message that arrived while the outgoing buffer was full"),
+			w.clone(),
+		));
+	}
+	if !sentinel_ok || ws.is_ended() {
+		out.violations.push(Violation::new(format!("connection-stopped-serving/{entry}:backpressure"), "no answer to the call sent after the oversized message".to_string(), w.clone()));
+	} else {
+		let want: Vec<u64> = (0..n_before as u64).chain((0..n_after as u64).map(|i| 1000 + i)).collect();
+		let missing: Vec<&u64> = want.iter().filter(|i| !answered.contains(i)).collect();
+		if !missing.is_empty() {
+			out.violations.push(Violation::new(format!("in-limit-unanswered/{entry}:backpressure"), format!("calls {missing:?} around the oversized message were not answered"), w.clone()));
+		}
+	}
+	out
 }
 
 /// Everything one (req, resp) configuration needs in mode D.
@@ -1142,6 +1243,22 @@ fn tcp_part(seed: u64, rounds: u64) -> (Evidence, TcpOut) {
 
 fn replay(ctx: &Ctx, path: &std::path::Path, mut ev: Evidence) -> ! {
 	let w: Value = serde_json::from_str(&std::fs::read_to_string(path).expect("replay file")).expect("json");
+	if w["witness"]["family"] == json!("backpressure") {
+		let seed = w["witness"]["seed"].as_u64().unwrap_or(0);
+		let mut violations = Vec::new();
+		for sd in [seed, seed ^ 1] {
+			let o = block_on_virtual(backpressure_case(sd));
+			ev.eval();
+			ev.nontrivial(&("backpressure-replay", sd));
+			if sd == seed {
+				for v in &o.violations {
+					println!("replay violation: {} - {}", v.signature, v.detail);
+				}
+				violations.extend(o.violations);
+			}
+		}
+		finish(ctx, ev, violations, None);
+	}
 	let p: ProbeSpec = serde_json::from_value(w["witness"]["probe"].clone()).expect("witness.probe");
 	println!("replaying {}", serde_json::to_string(&p).unwrap_or_default());
 	let m = build_msg(p.shape, p.size, p.msg_seed).expect("message");
@@ -1226,6 +1343,7 @@ fn main() {
 	ev.assume("'processed normally' for an in-limit call whose success reply would exceed max_response_body_size = handler invoked once and answered -32008 with the call's id (that replacement is C08's subject); otherwise the echo result is required");
 	ev.assume("independence from max_response_body_size is checked through the absolute oracle evaluated under every response limit of the grid, not by a separate differential");
 	ev.assume("mode D: 'no further frame / no response' = idle for 10 virtual seconds on a paused clock");
+	ev.assume("back-pressure family (300 / 20000 cases): message buffer 1..2, transport buffer 2*limit+300..555 bytes, peer not reading, enough calls in flight to fill both, then one oversized frame, then 0..2 calls; after the peer reads again: exactly one -32007, no handler saw the oversized message, all other calls answered");
 	ev.assume("single-frame WebSocket text messages only (the statement's quantifier); fragmented messages are not sent");
 	ev.assume("understated Content-Length exists only on direct service calls; through an HTTP/1.1 connection the header is true or absent (chunked)");
 
@@ -1265,6 +1383,20 @@ fn main() {
 		)),
 	);
 
+	{
+		let n = ctx.tier.pick(300u64, 20_000);
+		let seed = ctx.seed;
+		let res = run_parallel((0..n).collect(), |_, i| block_on_virtual(backpressure_case(Rng::fork(seed ^ 0xb9, i).next_u64())));
+		for (i, o) in res.into_iter().enumerate() {
+			ev.eval();
+			ev.count("backpressure_cases", 1);
+			ev.count("backpressure_calls_answered", o.calls_answered as u64);
+			if o.nontrivial {
+				ev.nontrivial(&("backpressure", i));
+			}
+			violations.extend(o.violations);
+		}
+	}
 	let mut inconclusive = None;
 	if ctx.tier == Tier::Thorough {
 		let t0 = std::time::Instant::now();
